@@ -1,5 +1,5 @@
-HOOK_COMMITS = ['261214f', '7473a7b', 'b193b9c']
-FIX_COMMITS = ['6ab1b61', 'aa5da3f', '23893cd', 'b2f43bf', '6457cb8', '9d7243e', '99e9484', '2173ac6', '62af4cc', '26a6dc2', '11fc74a', '0f6d027', 'e5a31d6', '90ab653', 'c33be62']
+HOOK_COMMITS = ['261214f', '7473a7b', 'b193b9c', '236d7ec']
+FIX_COMMITS = ['6ab1b61', 'aa5da3f', '23893cd', 'b2f43bf', '6457cb8', '9d7243e', '99e9484', '2173ac6', '62af4cc', '26a6dc2', '11fc74a', '0f6d027', 'e5a31d6', '90ab653', 'c33be62', '33896dd', '86f9aa3', '5aea712', '7455c3e']
 NOTES = ('Every check: proof gate (full coq build, forbidden-construct scan, Print Assumptions allow-list = empty) '
          '+ correspondence (extracted model vs real code on corpus + generated cases) + model-free oracle; '
          'known findings in known_findings.json. See DESIGN.md.')
@@ -180,3 +180,29 @@ CLAIMED['C04'] = dict(
     note='trusted: Coq kernel; hand-written models Packet/Views.v, Packet/IcmpExt.v (after the repairs 62af4cc, 26a6dc2, 11fc74a) and ' + C04_RECV_NOTE +
          ' All tied to the code by differential execution; no axioms. Not modelled: the socket layer itself (SimSocket stands in), IPv4 datagrams longer than the 1024-octet receive buffer are truncated by the harness as recv_from does.',
     technique='Coq proof (totality lemmas per accessor and per receive-path function over checked slicing; fuel-sufficiency) + differential testing + panic oracle with exhaustive field-value x buffer-length sweeps')
+
+# ---- C17 / C18 (append to bin/manifest_data.py; then python3 bin/gen_manifest.py) --------------
+TUI_NOTE = ('trusted: Coq kernel; hand-written models Tui/App.v (TuiApp methods, run_app prologue and key dispatch, State accessors by flow id, over the SHAPE of the '
+            'trace data) and Tui/Privacy.v, of the code AFTER the repairs C17_fix_1..4; tied to the code by replaying recorded op lists through the extracted model '
+            '(harness/htui: real TuiApp over never-running tracers fed with Tracer::verif_apply_round, ratatui TestBackend); no axioms. The key dispatch chain of run_app '
+            'cannot be separated from the crossterm event loop: the harness carries a transcription of it (using the real KeyBinding::check and the real TuiApp methods).')
+CLAIMED['C17'] = dict(
+    text='PARTIAL (by nature). PROVED in Coq, for every interleaving of unboundedly many data-shape changes (new rounds, clear, new / vanished flows, growing / shrinking paths, '
+         'hops losing addresses), TuiApp method calls, key events through the run_app dispatch and frames: no step is a fault (no missing State map key, no index out of bounds, '
+         'no usize underflow, no unwrap on None, incl. every accessor the views evaluate) and after every step the selected trace, flow, hop, hop address, flow_counts entry, '
+         'settings tab, settings item and column index refer to existing entries of the data on display (c17_selection_valid, c17_every_step). '
+         'ONLY EXECUTED, not proved: that ratatui drawing (render::app::render as a whole: layout solver, widgets, chart, canvas, unicode width) neither panics nor hangs - '
+         'every scenario is drawn on a TestBackend at 1x1..300x100 under catch_unwind and a watchdog; implementation and model agree on the selection state after every op.',
+    note=TUI_NOTE + ' Environment assumption of the theorems (wf_shape: flow 0 and every registered flow in the map, registered ids non-zero and containing 1, at most max_flows, '
+         'at most 254 hops) is checked on every observed State. Known finding, not repaired (dependency): the table layout solver (cassowary via ratatui 0.29) occasionally does not '
+         'return when the shown columns need more width than the terminal has (hash-order dependent).',
+    technique='Coq proof (selection invariant by induction over the op list) + op-list replay of the extracted model vs the real TuiApp + panic / stale-index / hang oracle on a TestBackend')
+CLAIMED['C18'] = dict(
+    text='PARTIAL (by nature). PROVED in Coq: with privacy n every view decision (Host cell with and without hop details, map pin filter, map info panel) yields the placeholder for every '
+         'hop with ttl <= n and is independent of the hop\'s address / hostname / AS / GeoIP strings (the formatting function of the normal branch is arbitrary), takes the normal branch for ttl > n '
+         'and when privacy is off; the source is hidden iff privacy is on; expand / contract move n by exactly one step along off,0,..,hop_count, never fault and never leave that range over any command sequence. '
+         'ONLY EXECUTED, not proved: that no other code path writes hidden text to the frame - unique sentinel strings for IP, reverse-DNS, AS and GeoIP fields are searched in the TestBackend cells '
+         'of every frame re-drawn across the view matrix (view x selected row x details x address mode x AS mode x GeoIP mode x max_addrs x size, 120960 combinations walked by a running counter).',
+    note=TUI_NOTE + ' Known finding, not repaired (by design of the feature): the destination in the header line is never hidden, so the address of the target hop is on screen even when its ttl <= n '
+         '(c18_destination_refuted; oracle tag C18:dest_in_header).',
+    technique='Coq proof (case analysis of the Option<u8> comparison, parametric in the formatting function; walk invariant for expand/contract) + sentinel search in rendered frames + model prediction of privacy value and per-row H/N/V')
